@@ -41,7 +41,11 @@ def rule_timer(ctx, f, ty):
                            "every %s must be created with observed = false (found %s)" % (ty, show(o) if o else None), site=b.raw["span"]["at"])
                     ctx.ob("T1", "%s|%s|start-now" % (ty, strip_generics(b.path).split("::")[-1]), s is not None and is_call(s, ["Instant::now", "Instant::now_coarse"]),
                            "the start instant must be taken when the timer is created", site=b.raw["span"]["at"])
-                    ctx.ob("T1", "%s|%s|target" % (ty, strip_generics(b.path).split("::")[-1]), agg_field(t, target_field) == P(1), "the timer must hold the histogram it was given", site=b.raw["span"]["at"])
+                    tg = agg_field(t, target_field)
+                    # the histogram handed to the constructor by value, or (constructor folded into start_timer) a clone of the histogram the method was called on
+                    a1ty = b.local_ty(1).replace(" ", "") if len(b.locals) > 1 else ""
+                    okt = (tg == P(1) and not a1ty.startswith("&")) or (tg is not None and is_call(tg, "Clone::clone") and peel(tg) == P(1) and a1ty.startswith("&") and a1ty.lstrip("&") == H + hist_ty)
+                    ctx.ob("T1", "%s|%s|target" % (ty, strip_generics(b.path).split("::")[-1]), okt, "the timer must hold the histogram it was given (found %s)" % (show(tg) if tg else None), site=b.raw["span"]["at"])
                     ctx.saw(b)
     ctx.floor("T1", ty + " constructions", n_aggs, 1)
     # T2-T5 on the NORMAL FORM of each way a timer ends: every private method of the timer (and stop_and_record under observe_duration) is expanded
@@ -274,6 +278,10 @@ def rule_T9(ctx, f):
             ctx.saw(b)
             r = b.term_local(0)
             ok = is_call(r, ctor) and is_call(r[2][0], "Clone::clone") and peel(r[2][0]) == P(1)
+            if not ok and isinstance(r, tuple) and r and r[0] == "agg" and strip_generics(str(r[2])).startswith(H + ctor.split("::")[0] + "::"):
+                # the constructor expanded in place: the aggregate itself holds self.clone()
+                tg = agg_field(r, "histogram" if ty == "Histogram" else "local")
+                ok = tg is not None and is_call(tg, "Clone::clone") and peel(tg) == P(1)
             ctx.ob("T9", ty + "::start_timer|clone-of-self", ok, "%s::start_timer must be %s(self.clone()) (found %s)" % (ty, ctor, show(r)), site=b.raw["span"]["at"])
     adt = f.adt(H + "LocalHistogramTimer")
     if adt:
